@@ -1,4 +1,5 @@
 import DoitModel.Proofs.StatusDecision
+import DoitModel.Proofs.StatusNoCrash
 /-! # C03 — a stale task is never skipped (up-to-date soundness over histories)
 
 Property theorems only (model: `Model/Status.lean`, helpers: `Proofs/Status*.lean`).
@@ -67,6 +68,28 @@ theorem C03_md5_content (h : List Op) (hf : Faithful h = true) (t : Name) :
           · exact ⟨hsz, hcid.symm⟩
           · simp [hsz, hcid] at hu
         · simp [hsz] at hu
+
+/-! ## the absorbing `crash` state
+
+`St.crashed` models an unhandled `TypeError` of doit (`MD5Checker` meeting a state saved by `TimestampChecker`);
+after it the model state is frozen at the last state before the exception, so the theorems above say nothing about
+what doit left in the DB.  It needs a switch of the checker: -/
+
+/-- a history without `switchChecker` never reaches the crash state (and the md5 checker stays configured) -/
+theorem C03_no_crash_without_checker_switch (h : List Op) (hn : NoSwitch h = true) (k : Nat) :
+    (runHist true (h.take k)).crashed = false := by
+  have : NoSwitch (h.take k) = true := by
+    unfold NoSwitch at hn ⊢
+    rw [List.all_eq_true] at hn ⊢
+    intro o ho
+    exact hn o (List.mem_of_mem_take ho)
+  exact (noSwitch_md5 true _ this).alive
+
+/-- the crash is reachable: `get_status` leaves through "missing target" before it would drop the record of the
+    other checker, then `save_success` hands the float state to `MD5Checker.get_state` -/
+theorem C03_crash_reachable :
+    (runHist true [.switchChecker .ts, .edit 0 4 1, .redefine 0 ⟨[0], [1], []⟩, .run 0 true false [(1, 4, 9)] none,
+      .delete 1, .switchChecker .md5, .run 0 true false [(1, 4, 9)] none]).crashed = true := by decide
 
 /-! ## non-vacuity: a history on which a task with a file dependency and a target really ends up-to-date, after a
     failed run, a forget, a checker switch and a dep-set change -/
